@@ -77,6 +77,10 @@ type Script struct {
 	// PreSendHdr: before the scripted call, another unary call is served by the same server whose handler sends its
 	// headers explicitly (grpc.SendHeader); it is none of the scripted call's business
 	PreSendHdr bool `json:",omitempty"`
+	// SlowFinish (HTTP carriers): something in front of the library's handlers takes a few milliseconds after the
+	// handler has returned (a decorating Mux function, access logging): the reply body ends that much later than
+	// its last byte was flushed
+	SlowFinish bool `json:",omitempty"`
 }
 
 // chunkedWriter drops Content-Length and flushes the header, so the reply goes out chunked.
@@ -341,6 +345,14 @@ func runScript(s *Script, name string, copts carrierOpts) *Obs {
 	if s.Chunked && isHTTP(name) && copts.WrapHandler == nil {
 		copts.WrapHandler = chunkedMiddleware
 	}
+	if s.SlowFinish && isHTTP(name) && copts.WrapHandler == nil {
+		copts.WrapHandler = func(h http.Handler) http.Handler {
+			return http.HandlerFunc(func(w http.ResponseWriter, r *http.Request) {
+				h.ServeHTTP(w, r)
+				time.Sleep(2 * time.Millisecond)
+			})
+		}
+	}
 	desc := newServiceDesc()
 	if s.RegAllBidi {
 		for i := range desc.Streams {
@@ -512,7 +524,7 @@ func runScriptOn(s *Script, conn grpc.ClientConnInterface, o *Obs, mu *sync.Mute
 		}
 		var final error
 		var earlyTrailer metadata.MD
-		var earlyTlrOpts []metadata.MD
+		var earlyTlrOpts, finalTlrOpts []metadata.MD
 		got := 0
 		for i := 0; i < len(s.Resps)+len(s.HOps)+4; i++ {
 			if s.HeaderAt == i {
@@ -523,6 +535,12 @@ func runScriptOn(s *Script, conn grpc.ClientConnInterface, o *Obs, mu *sync.Mute
 			mu.Lock()
 			if err != nil {
 				o.Recvs = append(o.Recvs, RecvRes{Err: errStr(err)})
+				if earlyTrailer == nil {
+					// "trailers no later than the final status": what the options hold now is what counts
+					for _, t := range o.TlrOpts {
+						finalTlrOpts = append(finalTlrOpts, t.Copy())
+					}
+				}
 				mu.Unlock()
 				final = err
 				break
@@ -563,6 +581,8 @@ func runScriptOn(s *Script, conn grpc.ClientConnInterface, o *Obs, mu *sync.Mute
 		if earlyTrailer != nil {
 			o.TrailerMD = earlyTrailer
 			copy(o.TlrOpts, earlyTlrOpts)
+		} else if finalTlrOpts != nil {
+			copy(o.TlrOpts, finalTlrOpts)
 		}
 		o.finalErr = final
 		o.Final = observeErr(final)
